@@ -38,7 +38,7 @@ try:
     for c, r in res.items():
         print("  check %s %s exit=%d %s" % (c, tier, r["exit"], " | ".join(r["lines"])[:400]))
     if confirmed:
-        d = "/verif/seeded/%s-%s" % (prop, k)
+        d = "/verif/seeded/%s%s-%s" % (prop, os.environ.get("SEED_ROUND", ""), k)
         os.makedirs(d, exist_ok=True)
         shutil.copy(patch, d + "/patch.diff"); shutil.copy(demo, d + "/demo.py")
         meta = json.load(open(metaf)) if os.path.exists(metaf) else {}
